@@ -99,6 +99,7 @@ class Ctx:
             # no rule depends on how a local happens to be spelled
             from . import canon
 
+            canon.strip_local_annotations(tree)
             k = canon.canonicalise(tree, rel)
             if k:
                 self.notes.append(f"{rel}: {k} local(s) renamed to their reference spelling before analysis (alpha-renaming)")
